@@ -1,6 +1,7 @@
 from __future__ import annotations
 
 import logging
+import os
 from typing import (
     IO,
     Callable,
@@ -51,6 +52,7 @@ MountPathType = Iterable[Tuple[Path, Path]]
 ResolverType = Callable[[str], Path]
 
 __FILECACHE__: FileCacheType = {}
+__FILECACHE_STAMPS__: MutableMapping[str, Union[Tuple[int, int, int], None]] = {}
 
 __all__ = [
     "clear_filecache",
@@ -116,10 +118,17 @@ def import_root_histogram(
     path = path or ''
     path = path.strip('/')
     fullpath = str(resolver(filename))
-    if fullpath not in filecache:
+    # a cached file is only reused while the file on disk is still the one that was opened
+    try:
+        stat = os.stat(fullpath)
+        stamp = (stat.st_ino, stat.st_size, stat.st_mtime_ns)
+    except OSError:
+        stamp = None
+    if fullpath not in filecache or __FILECACHE_STAMPS__.get(fullpath) != stamp:
         f = uproot.open(fullpath)
         keys = set(f.keys(cycle=False))
         filecache[fullpath] = (f, keys)
+        __FILECACHE_STAMPS__[fullpath] = stamp
     else:
         f, keys = filecache[fullpath]
 
